@@ -183,6 +183,13 @@ def run(ctx):
         rule_w(ctx, F)
         rule_p1(ctx, F)
         rule_p2(ctx, F)
+        import C06
+        sav = C06.ALIAS_READERS
+        C06.ALIAS_READERS = [a for a in sav if a[0] == "ts_subtree_summarize_children"]
+        try:
+            C06.rule_s3b(ctx, F)
+        finally:
+            C06.ALIAS_READERS = sav
     return ctx.finish(
         "Who-may-write, ordering and pairing rules over subtree.c/node.c: cached child/descendant counts are written only by the summariser and are what the node API returns; "
         "in-place rotation re-summarises bottom-up; a child's error cost always reaches its parent; ERROR/MISSING carry non-zero cost and has_error is cost > 0. "
